@@ -126,28 +126,54 @@ def run(ctx):
 
     # set_inheritable(_, false) really sets FD_CLOEXEC
     si = prog.one("popen::os::set_inheritable")
-    T = M.Terms(si)
     ex = M.Explore(si, assume={("param", 2, si.local_name(2)): 0}, tries="ok")
+    T = M.Terms(si, blocks=ex.blocks)
     fc = [(bb, t) for bb, t in ex.calls(lambda f: M.callee_str(f) == "posix::fcntl")]
-    ok = len(fc) == 2
-    detail = "expected fcntl(F_GETFD) then fcntl(F_SETFD, old | FD_CLOEXEC)"
+    getfd = [(bb, t) for bb, t in fc if T.operand(t["args"][1])[0] == "const" and T.operand(t["args"][1])[2] in ("posix::F_GETFD", "libc::F_GETFD") and T.operand(t["args"][1])[1] == 1]
+    setfd = [(bb, t) for bb, t in fc if T.operand(t["args"][1])[0] == "const" and T.operand(t["args"][1])[2] in ("posix::F_SETFD", "libc::F_SETFD") and T.operand(t["args"][1])[1] == 2]
+    ok = len(getfd) == 1 and len(setfd) == 1 and len(fc) == 2
+    detail = "expected fcntl(F_GETFD) then fcntl(F_SETFD, old | FD_CLOEXEC); found %d fcntl calls" % len(fc)
     if ok:
-        g = [T.operand(x) for x in fc[0][1]["args"]]
-        s = [T.operand(x) for x in fc[1][1]["args"]]
-        fd_ok = g[0] == s[0] and M.strip(g[0], also=("<std::fs::File as std::os::fd::AsRawFd>::as_raw_fd",)) == ("param", 1, si.local_name(1))
-        cmd_ok = g[1][0] == "const" and g[1][2] in ("posix::F_GETFD", "libc::F_GETFD") and g[1][1] == 1 and s[1][0] == "const" and s[1][2] in ("posix::F_SETFD", "libc::F_SETFD") and s[1][1] == 2
-        arg = s[2]
-        arg_ok = arg[0] == "agg" and arg[1][:3] == ("adt", "std::option::Option", "Some") and arg[2][0][0] == "bin" and arg[2][0][1] == "BitOr"
-        if arg_ok:
-            parts = arg[2][0][2:4]
-            has_old = any(M.strip(x)[0] == "call" and M.strip(x)[1] == "posix::fcntl" and M.strip(x)[3] == fc[0][0] for x in parts)
-            has_flag = any(x[0] == "const" and x[2] in ("posix::FD_CLOEXEC", "libc::FD_CLOEXEC") and x[1] == 1 for x in parts)
-            arg_ok = has_old and has_flag
-        ok = fd_ok and cmd_ok and arg_ok and fc[1][0] in si.reachable(fc[0][0])
-        detail = "fd same & from f: %s, commands F_GETFD/F_SETFD: %s, argument old|FD_CLOEXEC: %s" % (fd_ok, cmd_ok, arg_ok)
+        g = [T.operand(x) for x in getfd[0][1]["args"]]
+        s_ = [T.operand(x) for x in setfd[0][1]["args"]]
+        fd_ok = g[0] == s_[0] and M.strip(g[0], also=("<std::fs::File as std::os::fd::AsRawFd>::as_raw_fd",)) == ("param", 1, si.local_name(1))
+
+        def is_old(x):
+            x = M.strip(x)
+            return x[0] == "call" and x[1] == "posix::fcntl" and x[3] == getfd[0][0]
+
+        def is_new(x):
+            return x[0] == "bin" and x[1] == "BitOr" and any(is_old(y) for y in x[2:4]) and any(y[0] == "const" and y[2] in ("posix::FD_CLOEXEC", "libc::FD_CLOEXEC") and y[1] == 1 for y in x[2:4])
+        arg = s_[2]
+        arg_ok = arg[0] == "agg" and arg[1][:3] == ("adt", "std::option::Option", "Some") and is_new(arg[2][0])
+        # the SETFD may be skipped only when the flag is already set (`new == old`)
+        same_t, same_f = cond_edges(si, T, lambda c: (1 if c[1] == "Eq" else -1) if (c[0] == "bin" and c[1] in ("Eq", "Ne") and ((is_new(c[2]) and is_old(c[3])) or (is_new(c[3]) and is_old(c[2])))) else 0)
+        oks = [b for (b, si_, v, r) in result_variants(si, ex) if v == "Ok"]
+        reach_ok = bool(oks) and all(b not in si.reachable(0, removed_blocks=[setfd[0][0]], removed_edges=set(same_t)) or b not in ex.blocks for b in oks)
+        # ... evaluated inside the explored (inheritable = false) sub-graph
+        sub = set()
+        st = [0]
+        while st:
+            x = st.pop()
+            if x in sub or x == setfd[0][0] or x not in ex.blocks:
+                continue
+            sub.add(x)
+            for y in si.succs(x):
+                if (x, y) in ex.edges and (x, y) not in set(same_t):
+                    st.append(y)
+        reach_ok = bool(oks) and not any(b in sub for b in oks)
+        ok = fd_ok and arg_ok and setfd[0][0] in si.reachable(getfd[0][0]) and reach_ok
+        detail = "fd same & from f: %s, argument old|FD_CLOEXEC: %s, every Ok path sets the flag (or found it set): %s" % (fd_ok, arg_ok, reach_ok)
     ctx.ob("R08.1", "set_inheritable(false)=F_SETFD(old|FD_CLOEXEC)", ok, si.loc(0), detail)
-    okret = [v for (_, _, v, _) in result_variants(si, ex)]
-    ctx.ob("R08.1", "set_inheritable(false).ok-after-both", okret == ["Ok"], si.loc(0), "on the success path both fcntl calls precede Ok: %s" % okret)
+    # set_inheritable(_, true) must leave the descriptor's flags alone: prepare_file / prepare_rc_file call it on files the
+    # caller may keep open (another Rc clone, or the pipe end of another Popen) — clearing FD_CLOEXEC there hands that
+    # descriptor to every child spawned later
+    ex1 = M.Explore(si, assume={("param", 2, si.local_name(2)): 1}, tries="ok")
+    T1 = M.Terms(si, blocks=ex1.blocks)
+    w = [M.term_str(T1.operand(t["args"][1])) for bb, t in ex1.calls(lambda f: M.callee_str(f) == "posix::fcntl") if const_of(T1.operand(t["args"][1])) != 1]
+    ctx.ob("R08.1", "set_inheritable(true).leaves-flags-alone", not w, si.loc(0),
+           "with inheritable = true no descriptor flag may be written (found fcntl %s): the same open file can stay with the parent (RcFile clone, another Popen's pipe end) "
+           "and would then be inherited by every later child" % w)
     pfc = prog.one("posix::fcntl")
     Tf = M.Terms(pfc)
     lf = pfc.calls_to(lambda f: M.callee_str(f) == "libc::fcntl")
